@@ -697,6 +697,24 @@ class SymZ:
             return NotImplemented
         if _bit(self) and _bit(o2):
             return self + o2 - self * o2
+        # disjoint bit ranges: one operand is a non-negative multiple of 2^k and the other lies in [0, 2^k)  =>  a | b == a + b
+        # (both facts are proved on the current path; anything else stays unsupported)
+        if not _is_bv():
+            ctx = cur()
+            for a, b in ((self, o2), (o2, self)):
+                ks = []
+                if b._is_const() and b._cval() >= 0:
+                    ks.append(b._cval().bit_length())
+                elif b.hi is not None and b.lo is not None and b.lo >= 0:
+                    ks.append(b.hi.bit_length())
+                if a._is_const() and a._cval() > 0:
+                    ks.append((a._cval() & -a._cval()).bit_length() - 1)      # trailing zeros of a
+                for k in ks:
+                    if k > 4096:
+                        continue
+                    r, _ = ctx.prove(z3.And(a.t >= 0, a.t % (1 << k) == 0, b.t >= 0, b.t < (1 << k)), timeout_ms=5000)
+                    if r == "unsat":
+                        return a + b
         raise Unsupported("general bitwise or")
 
     __ror__ = __or__
